@@ -24,3 +24,18 @@ inductive Res
 deriving Repr, DecidableEq
 
 end Yow.Py
+
+namespace Yow.Py
+
+/-- what a translated function that appends to a list handed to it did: it raised, or it appended these numbers in this order -/
+inductive Out
+  | raised
+  | wrote (bs : List Nat)
+deriving Repr, DecidableEq
+
+/-- one statement after another -/
+def Out.andThen : Out → Out → Out
+  | .wrote a, .wrote b => .wrote (a ++ b)
+  | _, _ => .raised
+
+end Yow.Py
